@@ -424,6 +424,49 @@ fn g6() -> Vec<Case> {
     out
 }
 
+/// G7: the one member every class has from Object - `derives` - is a member like any other: a class may
+/// define its own, and then instances of that class and of every class below it, at any depth, find that
+/// definition (nearest in the declared ancestry) through a call, through the value taken, and through
+/// `super`; classes beside it still find Object's.
+fn g7() -> Vec<Case> {
+    let mut out = Vec::new();
+    for overriding_level in 0..3usize {
+        for depth in (overriding_level + 1)..=3usize {
+            for leaf_calls_super in [false, true] {
+                let names = ["A", "B", "C"];
+                let mut prog = Vec::new();
+                for level in 0..depth {
+                    let mut methods = Vec::new();
+                    if level == overriding_level {
+                        methods.push(method(FnKind::Method, "derives", &["k"], vec![ret(Expr::Interp(vec![Part::Lit(format!("{}'s own derives asked about ", names[level])), Part::Expr(var("k"))]))]));
+                    } else if level == depth - 1 && leaf_calls_super && level > overriding_level {
+                        methods.push(method(FnKind::Method, "derives", &["k"], vec![ret(bin(BinOp::Add, s(&format!("{} then ", names[level])), Expr::SuperInvoke("derives".into(), vec![var("k")])))]));
+                    }
+                    methods.push(method(FnKind::Method, "ask", &["k"], vec![ret(invoke(Expr::SelfRef, "derives", vec![var("k")]))]));
+                    prog.push(class_stmt(names[level], if level == 0 { None } else { Some(names[level - 1]) }, Some("new"), methods));
+                }
+                prog.push(class_stmt("Beside", None, Some("new"), vec![]));
+                for level in 0..depth {
+                    let x = invoke(var(names[level]), "new", vec![]);
+                    prog.push(var_stmt_local_or_global(&format!("x{}", level), x));
+                    let xv = var(&format!("x{}", level));
+                    prog.push(probe(invoke(xv.clone(), "derives", vec![var(names[0])])));
+                    prog.push(probe(call(get(xv.clone(), "derives"), vec![var("Beside")])));
+                    prog.push(probe(invoke(xv.clone(), "ask", vec![var(names[level])])));
+                }
+                prog.push(probe(invoke(invoke(var("Beside"), "new", vec![]), "derives", vec![var("Beside")])));
+                prog.push(probe(invoke(invoke(var("Beside"), "new", vec![]), "derives", vec![var("A")])));
+                out.push(Case::new("G7_a_member_of_Object_overridden", prog));
+            }
+        }
+    }
+    out
+}
+
+fn var_stmt_local_or_global(name: &str, e: Expr) -> Stmt {
+    var_stmt(name, e)
+}
+
 pub fn cases_for_c04(thorough: bool) -> Vec<Case> {
     g1(thorough).into_iter().chain(g2()).chain(g3()).chain(g5()).chain(g6()).collect()
 }
@@ -431,13 +474,13 @@ pub fn cases_for_c04(thorough: bool) -> Vec<Case> {
 pub fn run(ctx: &Ctx) -> Report {
     let mut report = Report::new();
     let thorough = ctx.thorough();
-    let cases = g1(thorough).into_iter().chain(g2()).chain(g3()).chain(g4()).chain(g5()).chain(g6());
+    let cases = g1(thorough).into_iter().chain(g2()).chain(g3()).chain(g4()).chain(g5()).chain(g6()).chain(g7());
     let hooks = Hooks { attribute: &|_c, _m, _o, _mm| None, nontrivial: &|_c, m| m.out.len() >= 4 || matches!(m.outcome, Outcome::Uncaught(_)), fuel: 2_000_000 };
     let stats = mcheck::run(ctx, cases, &hooks);
     mcheck::fill_report(
         &mut report,
         &stats,
-        "G1: every hierarchy of depth 1-3 where each class independently has method m absent / plain / overriding through super.m() / through super.m taken as a value / through super.m() inside a lambda nested in the method, optionally n calling self.m(), and one of four constructor forms; probed with calls, bound values, wrong arity, unknown members, fields shadowing methods, type and derives on instances of the two most derived classes. G2: static methods and Self through class, instance and subclass instance. G3: classes in local scopes, captured variables, rebound superclass names. G4: every non-class value as superclass; deriving built-in error classes. G5: construction, arity, invoke == get-then-call. G6: the receiver of super in instance, static and constructor methods under 5 nestings of the expression and 5 places the class can be declared in, through class, subclass and instances. non-trivial = at least four observations.",
+        "G1: every hierarchy of depth 1-3 where each class independently has method m absent / plain / overriding through super.m() / through super.m taken as a value / through super.m() inside a lambda nested in the method, optionally n calling self.m(), and one of four constructor forms; probed with calls, bound values, wrong arity, unknown members, fields shadowing methods, type and derives on instances of the two most derived classes. G2: static methods and Self through class, instance and subclass instance. G3: classes in local scopes, captured variables, rebound superclass names. G4: every non-class value as superclass; deriving built-in error classes. G5: construction, arity, invoke == get-then-call. G6: the receiver of super in instance, static and constructor methods under 5 nestings of the expression and 5 places the class can be declared in, through class, subclass and instances. G7: `derives`, the member every class has from Object, defined anew at each level of a hierarchy of depth 1-3 and found (call, value, super, self call) from that level and every level below. non-trivial = at least four observations.",
         json!({"hierarchy_depth": 3, "per_class_choices": 40}),
     );
     report.assumptions = vec!["static methods and constructors are looked up on the class they were defined in and on instances, not through subclasses' class objects (Appendix A)".into()];
